@@ -76,7 +76,8 @@ def case_stats(r, case, shape):
     dens = cells.count('*') / max(len(cells), 1)
     r.count('dont_care_density', 'none' if dens == 0 else 'all' if dens == 1 else '<=1/3' if dens <= 1 / 3
             else '<=2/3' if dens <= 2 / 3 else '<1')
-    rows = len(case['tt'][0])
+    rows = 1 << shape.n
+    r.count('function_model', case.get('model', 'tt'))
     alldc = sum(all(row[t] == '*' for row in case['tt']) for t in range(rows))
     r.count('all_dont_care_rows', 'none' if alldc == 0 else 'all' if alldc == rows else 'some')
     for k in case['pre'] + case['post']:
@@ -105,8 +106,8 @@ def correspondence(ctx, model_ok):
               'error kind, plus Python validity verdict vs validb); fix_gate/forbid_wire argument checks on random '
               'calls; non-trivial = at least one gate; distinct = hash of the case')
     cases = list(sc.CORPUS) + systematic_cases()
-    n_random = ctx.n(160, 1200)
-    big = ctx.n(12, 80)
+    n_random = ctx.n(400, 3000)
+    big = ctx.n(20, 150)
     while len(cases) < len(sc.CORPUS) + 144 + n_random:
         c = sc.random_case(ctx.rng)
         sh = sc.shape_of(c)
@@ -134,7 +135,12 @@ def correspondence(ctx, model_ok):
             if m is not None:
                 models.append(('solver', m))
         else:
+            m = None
             r.count('shim_solver', 'empty clause')
+        if m is None:
+            ex = shape.exists()
+            r.count('unsat_cases_enumeration', 'class enumerated: empty' if ex is False else
+                    'a circuit exists' if ex else 'enumeration budget exhausted (completeness not decided)')
         models += sc.model_lists(ctx.rng, f, ctx.n(2, 4))
         for kind, m in models:
             f2 = sc.make_finder(case)
